@@ -4,7 +4,9 @@
 // Every case is built from seeded keys and a generated spending transaction; the signatures are made
 // by the INDEPENDENT spec signer of harness/sigspec (script code per the specification, digest via
 // the separately verified CalcInputSignatureHash, ECDSA with a chosen nonce) and never by running
-// the interpreter. The real engine then runs with a recording debugger; the case is written as a
+// the interpreter; the expected verdict of every (signature, key) pair is the node's CPubKey::Verify
+// (key validity by prefix and length, lax DER parser) on that digest. The real engine then runs with a
+// recording debugger; the case is written as a
 // Gallina term for coq/corr/C06.v together with the go-bk oracle tables (ParsePubKey, Parse(DER)Signature,
 // Signature.Verify called directly on every (key, digest, signature) the run can ask for).
 // The property is also stated directly in Go on every case: the verdict class {true, false, error}
@@ -118,28 +120,41 @@ func popBytes(o interpreter.ParsedOpcode) []byte {
 	}
 	return append(out, o.Data...)
 }
-func canonicalPush(o interpreter.ParsedOpcode) bool {
-	op, l := o.Value(), len(o.Data)
+
+// bscript.PushDataPrefix ++ data
+func pushOf(d []byte) []byte {
+	l := len(d)
+	var out []byte
 	switch {
-	case op > 0x60:
-		return true
-	case op < 0x4c && op > 0 && l == 1 && o.Data[0] <= 16:
-		return false
-	case op == 0x4c && l < 0x4c:
-		return false
-	case op == 0x4d && l <= 0xff:
-		return false
-	case op == 0x4e && l <= 0xffff:
-		return false
+	case l <= 75:
+		out = []byte{byte(l)}
+	case l <= 0xff:
+		out = []byte{0x4c, byte(l)}
+	case l <= 0xffff:
+		out = []byte{0x4d, byte(l), byte(l >> 8)}
+	default:
+		out = []byte{0x4e, byte(l), byte(l >> 8), byte(l >> 16), byte(l >> 24)}
 	}
-	return true
+	return append(out, d...)
 }
-func stripSig(ops []interpreter.ParsedOpcode, full []byte) []interpreter.ParsedOpcode {
+
+// removeOpcodeByData: the opcodes whose serialisation is the push of the signature
+func removeByData(ops []interpreter.ParsedOpcode, full []byte) []interpreter.ParsedOpcode {
+	push := pushOf(full)
 	var out []interpreter.ParsedOpcode
 	for _, o := range ops {
-		if canonicalPush(o) && bytes.Contains(o.Data, full) {
+		if bytes.Equal(popBytes(o), push) {
 			continue
 		}
+		out = append(out, o)
+	}
+	return out
+}
+
+// removeOpcode(OP_CODESEPARATOR)
+func removeSeps(ops []interpreter.ParsedOpcode) []interpreter.ParsedOpcode {
+	var out []interpreter.ParsedOpcode
+	for _, o := range ops {
 		if o.Value() == 0xab {
 			continue
 		}
@@ -220,7 +235,7 @@ func (t *tableRec) BeforeExecuteOpcode(s *interpreter.State) {
 		ht, body := full[len(full)-1], full[:len(full)-1]
 		code := sub
 		if !(flags&sp.FForkID != 0 && ht&0x40 != 0) {
-			code = stripSig(sub, full)
+			code = removeSeps(removeByData(sub, full))
 		}
 		t.query(pk, body, t.digest(unparse(code), ht), der)
 		return
@@ -249,9 +264,8 @@ func (t *tableRec) BeforeExecuteOpcode(s *interpreter.State) {
 		if flags&sp.FForkID != 0 && len(full) > 0 && full[len(full)-1]&0x40 != 0 {
 			continue
 		}
-		code = stripSig(code, full)
+		code = removeByData(code, full)
 	}
-	up := unparse(code)
 	hashes := map[byte][]byte{}
 	for i, full := range sigs {
 		if len(full) == 0 {
@@ -259,7 +273,11 @@ func (t *tableRec) BeforeExecuteOpcode(s *interpreter.State) {
 		}
 		ht, body := full[len(full)-1], full[:len(full)-1]
 		if _, ok := hashes[ht]; !ok {
-			hashes[ht] = t.digest(up, ht)
+			sigCode := code
+			if !(flags&sp.FForkID != 0 && ht&0x40 != 0) {
+				sigCode = removeSeps(code)
+			}
+			hashes[ht] = t.digest(unparse(sigCode), ht)
 		}
 		for j := i; j <= i+(n-m) && j < n; j++ {
 			t.query(keys[j], body, hashes[ht], der)
@@ -308,7 +326,8 @@ type sigReq struct {
 	WrongCode bool // sign the digest of the script code WITHOUT honouring code separators
 	Empty     bool
 	Bare      bool // the signature is the hash-type byte alone
-	StripAny  bool // sign the script code with non-minimal pushes of the signature removed as well (not the specification)
+	StripAny  bool // sign the script code with the copies of the signature that are NOT removed left out as well (not the specification)
+	CodeFrom  int  // > 0 (wrong signatures only): sign the script code that starts at this opcode index, as if a separator had been executed there
 }
 
 type sigOp struct {
@@ -350,6 +369,8 @@ type build struct {
 	ops     []sigOp
 	p2sh    bool
 	note    string
+	devTag  string // set by predict: go-bk's parsers and the node's disagree on a pair the reference loop examined (known deviations)
+	codeTag string // set by a family whose expectation is the node's rule on a point where the library is known to differ
 }
 
 var txCounter int
@@ -385,13 +406,20 @@ func (b *build) addSig(q sigReq) int {
 	return len(b.reqs) - 1
 }
 
-// legacySlot: the signature is hashed with the original digest and is removed from the script code.
-func (b *build) legacySlot(slot int) bool {
+// strippedSlot: the push of the signature is removed from the script code of its operation: every
+// signature that is not hashed with the FORKID digest - an empty one has no hash type at all, its
+// push is OP_0.
+func (b *build) strippedSlot(slot int) bool {
 	q := b.reqs[slot]
 	if q.Empty {
-		return false // an empty signature signs nothing; the specification strips nothing for it
+		return true
 	}
 	return !sp.UsesForkID(sp.Norm(b.flags), q.HT)
+}
+
+// legacyDigest: the signature is hashed with the original digest (which drops the separators).
+func (b *build) legacyDigest(slot int) bool {
+	return !sp.UsesForkID(sp.Norm(b.flags), b.reqs[slot].HT)
 }
 
 // specDigest: the digest a conforming signer computes for slot of operation o.
@@ -400,11 +428,12 @@ func (b *build) specDigest(o *sigOp, slot int, wrong bool) []byte {
 	ignoreSeps := wrong && q.WrongCode
 	strip := map[int]bool{}
 	for _, s := range o.slots {
-		if b.legacySlot(s) {
+		if b.strippedSlot(s) {
 			strip[s] = true
 		}
 	}
 	script := b.scripts[o.script]
+	at := o.at
 	if ignoreSeps {
 		script = append([]sp.Op{}, script...)
 		for i := range script {
@@ -413,7 +442,18 @@ func (b *build) specDigest(o *sigOp, slot int, wrong bool) []byte {
 			}
 		}
 	}
-	code := sp.SpecCode(script, o.at, b.legacySlot(slot), strip, b.sigs, wrong && q.StripAny)
+	if wrong && q.CodeFrom > 0 {
+		from := q.CodeFrom
+		if from > len(script) {
+			from = len(script)
+		}
+		script = script[from:]
+		at -= from
+		if at < 0 {
+			at = 0
+		}
+	}
+	code := sp.SpecCode(script, at, b.legacyDigest(slot), strip, b.sigs, wrong && q.StripAny)
 	h, err := sp.Digest(b.flags, b.tx, b.idx, code, b.sats, q.HT)
 	if err != nil {
 		panic("c06: digest: " + err.Error())
@@ -423,6 +463,15 @@ func (b *build) specDigest(o *sigOp, slot int, wrong bool) []byte {
 
 // signAll makes every signature with the spec signer.
 func (b *build) signAll() {
+	// signatures that need no signing are known up front: their pushes can occur in any script code
+	for slot, q := range b.reqs {
+		switch {
+		case q.Empty:
+			b.sigs[slot] = []byte{}
+		case q.Bare:
+			b.sigs[slot] = []byte{q.HT}
+		}
+	}
 	for oi := range b.ops {
 		o := &b.ops[oi]
 		for _, slot := range o.slots {
@@ -497,24 +546,41 @@ func (b *build) predict(o *sigOp) (cls, why string) {
 		return "", "" // the BIP143 flag is outside the six flags of the property: correspondence only
 	}
 	der := flags&(sp.FStrictEnc|sp.FDERSig) != 0
+	// the node's check of one (signature, key) pair: CPubKey::Verify on the specification's digest
+	verifiesQuiet := func(slot int, pk []byte) bool {
+		full := b.sigs[slot]
+		if len(full) == 0 {
+			return false
+		}
+		return sp.NodeVerify(pk, b.specDigest(o, slot, false), full[:len(full)-1])
+	}
+	// the same for a pair the reference algorithm examines; notes where go-bk's parsers answer differently
 	verifies := func(slot int, pk []byte) bool {
 		full := b.sigs[slot]
 		if len(full) == 0 {
 			return false
 		}
-		h := b.specDigest(o, slot, false)
-		return sp.Verify(pk, h, full[:len(full)-1], der)
+		node := verifiesQuiet(slot, pk)
+		if lib := sp.Verify(pk, b.specDigest(o, slot, false), full[:len(full)-1], der); lib != node {
+			if !sp.NodePubKeyValid(pk) {
+				b.devTag = "key-with-unknown-prefix-usable-without-strictenc"
+			} else {
+				b.devTag = "signature-parser-stricter-than-lax-der-without-der-flags"
+			}
+		}
+		return node
 	}
 	if !o.multi {
 		full, pk := b.sigs[o.slots[0]], o.keys[0]
-		if len(full) == 0 {
-			return sp.ClsFalse, ""
-		}
+		// the encodings of signature and key are checked first; an empty signature is well encoded
 		if why := sp.SigEncodingWhy(flags, full); why != "" {
 			return sp.ClsError, why
 		}
 		if sp.PubKeyEncodingError(flags, pk) {
 			return sp.ClsError, "pubkey-encoding"
+		}
+		if len(full) == 0 {
+			return sp.ClsFalse, ""
 		}
 		if verifies(o.slots[0], pk) {
 			return sp.ClsTrue, ""
@@ -554,7 +620,7 @@ func (b *build) predict(o *sigOp) (cls, why string) {
 		}
 	}
 	// cross-check of the harness itself: without hard errors the reference loop decides the monotone matching
-	mm := sp.MonotoneMatch(m, n, func(i, j int) bool { return verifies(o.slots[i], o.keys[j]) })
+	mm := sp.MonotoneMatch(m, n, func(i, j int) bool { return verifiesQuiet(o.slots[i], o.keys[j]) })
 	if mm != success {
 		panic("c06: reference loop and monotone matching disagree")
 	}
@@ -643,6 +709,7 @@ func (b *build) run() {
 		if step > firstErr {
 			break // not reached
 		}
+		b.devTag = ""
 		want, why := b.predict(o)
 		if want == "" {
 			continue
@@ -664,6 +731,10 @@ func (b *build) run() {
 		if got != want {
 			site := opName(o) + "/"
 			switch {
+			case b.devTag != "":
+				site += b.devTag
+			case b.codeTag != "" && want == sp.ClsTrue:
+				site += b.codeTag
 			case want == sp.ClsTrue && b.forkBitWithoutFlag(o):
 				site += "forkid-digest-used-without-forkid-flag"
 			case want == sp.ClsTrue:
@@ -930,6 +1001,12 @@ type msOpts struct {
 	p2sh    bool
 	copies  bool // legacy: copies of the signatures inside the locking script
 	expect  string
+	nkRaw   []byte  // the key count as these bytes (a plain data push) instead of the small-integer opcode
+	nsRaw   []byte  // the same for the signature count
+	post    []sp.Op // opcodes after the operation (and its OP_1 when verify)
+	bare    []bool  // per signature: the signature is its hash-type byte alone
+	sigForm int     // push form of the signatures in the unlocking script (0: smallest)
+	tag     string  // codeTag of the case
 }
 
 func multisigCase(r *common.Rand, kind string, flags uint32, n int, assign []int, o msOpts) {
@@ -962,12 +1039,16 @@ func multisigCase(r *common.Rand, kind string, flags uint32, n int, assign []int
 		default:
 			q.Empty = true
 		}
+		if o.bare != nil && o.bare[i] {
+			q.Bare, q.Empty = true, false
+		}
 		slots = append(slots, b.addSig(q))
 	}
 	dummy := o.dummy
+	b.codeTag = o.tag
 	b.scripts[0] = []sp.Op{sp.P(dummy)}
 	for _, s := range slots {
-		b.scripts[0] = append(b.scripts[0], sp.SigSlot(s, nil, nil, 0))
+		b.scripts[0] = append(b.scripts[0], sp.SigSlot(s, nil, nil, o.sigForm))
 	}
 	lock := append([]sp.Op{}, o.pre...)
 	if o.copies {
@@ -975,11 +1056,19 @@ func multisigCase(r *common.Rand, kind string, flags uint32, n int, assign []int
 			lock = append(lock, sp.SigSlot(s, nil, nil, 0), sp.O(0x75))
 		}
 	}
-	lock = append(lock, sp.Num(m))
+	if o.nsRaw != nil {
+		lock = append(lock, sp.PForm(o.nsRaw, sp.FormDirect))
+	} else {
+		lock = append(lock, sp.Num(m))
+	}
 	for _, k := range keys {
 		lock = append(lock, sp.P(k))
 	}
-	lock = append(lock, sp.Num(n))
+	if o.nkRaw != nil {
+		lock = append(lock, sp.PForm(o.nkRaw, sp.FormDirect))
+	} else {
+		lock = append(lock, sp.Num(n))
+	}
 	op := byte(0xae)
 	if o.verify {
 		op = 0xaf
@@ -989,6 +1078,7 @@ func multisigCase(r *common.Rand, kind string, flags uint32, n int, assign []int
 	if o.verify {
 		lock = append(lock, sp.O(0x51))
 	}
+	lock = append(lock, o.post...)
 	if o.sepAt > 0 {
 		i := o.sepAt - 1
 		if i > len(lock) {
@@ -1155,22 +1245,34 @@ func familyStripping(r *common.Rand) {
 		{"canonical-copy", nil, nil, 0},
 		{"pushdata1-copy", nil, nil, 1},
 		{"pushdata2-copy", nil, nil, 2},
+		{"pushdata4-copy", nil, nil, 4},
 		{"embedded-copy", []byte{0xde, 0xad}, []byte{0xbe, 0xef}, 0},
 		{"prefixed-copy", []byte{0x00}, nil, 0},
+		{"suffixed-copy", nil, []byte{0xee, 0xff}, 0},
+		{"suffixed-copy-pushdata1", nil, []byte{0xee, 0xff, 0x01, 0x02, 0x03}, 0}, // 76+ bytes: the copy is a PUSHDATA1 push
 	}
 	for fi, fm := range forms {
 		for mi, f := range []uint32{0, sp.FDERSig | sp.FNullFail, sp.FGenesis, sp.FLowS | sp.FStrictEnc | sp.FGenesis} {
 			for hi, ht := range []byte{0x01, 0x83} {
-				b := newBuild(r, "strip/"+fm.name, f, 1)
-				slot := b.addSig(sigReq{Signer: 0, HT: ht})
-				pk := b.keys[0].Enc((fi + mi + hi) % 2)
-				b.scripts[0] = []sp.Op{sp.SigSlot(slot, nil, nil, 0)}
-				b.scripts[1] = []sp.Op{sp.SigSlot(slot, fm.pre, fm.post, fm.form), sp.O(0x75), sp.Sep(true), sp.O(0x61), sp.P(pk), sp.O(0xac)}
-				b.ops = []sigOp{{script: 1, at: 5, slots: []int{slot}, keys: [][]byte{pk}}}
-				// a non-minimal copy is not removed, so no signature can cover it: one made over the code
-				// without the copy must be rejected
-				b.reqs[slot].StripAny = fm.form != 0
-				b.run()
+				// the copy before an executed separator (outside the script code), and inside the script code
+				for inside := 0; inside < 2; inside++ {
+					b := newBuild(r, "strip/"+fm.name+[]string{"-before-separator", ""}[inside], f, 1)
+					slot := b.addSig(sigReq{Signer: 0, HT: ht})
+					pk := b.keys[0].Enc((fi + mi + hi) % 2)
+					b.scripts[0] = []sp.Op{sp.SigSlot(slot, nil, nil, 0)}
+					if inside == 0 {
+						b.scripts[1] = []sp.Op{sp.SigSlot(slot, fm.pre, fm.post, fm.form), sp.O(0x75), sp.Sep(true), sp.O(0x61), sp.P(pk), sp.O(0xac)}
+						b.ops = []sigOp{{script: 1, at: 5, slots: []int{slot}, keys: [][]byte{pk}}}
+					} else {
+						b.scripts[1] = []sp.Op{sp.SigSlot(slot, fm.pre, fm.post, fm.form), sp.O(0x75), sp.O(0x61), sp.P(pk), sp.O(0xac)}
+						b.ops = []sigOp{{script: 1, at: 4, slots: []int{slot}, keys: [][]byte{pk}}}
+					}
+					// only the exact smallest-form push of the signature is removed; any other copy (longer
+					// push instruction, or a push that merely contains the signature) stays, so no signature
+					// can cover it: one made over the code without the copy must be rejected
+					b.reqs[slot].StripAny = fm.form != 0 || fm.pre != nil || fm.post != nil
+					b.run()
+				}
 			}
 		}
 	}
@@ -1240,6 +1342,236 @@ func familyLimits(r *common.Rand) {
 	}
 }
 
+// ---------- families for the rules repaired after the review of the signature opcodes ----------
+
+var mandatory = uint32(sp.FBip16 | sp.FStrictEnc | sp.FForkID | sp.FLowS | sp.FNullFail)
+
+// an empty signature does not excuse the public key: OP_CHECKSIG(VERIFY) checks its encoding first
+func familyEmptySigKey(r *common.Rand) {
+	flagSets := []uint32{sp.FStrictEnc, sp.FForkID, sp.FForkID | sp.FGenesis, mandatory, mandatory | sp.FGenesis, 0,
+		sp.FDERSig | sp.FNullFail, sp.FStrictEnc | sp.FNullFail | sp.FGenesis}
+	kinds := []int{sp.PKHybrid, sp.PKShort, sp.PKLong, sp.PKEmpty, sp.PKOneZeroByte, sp.PKBadPrefix, sp.PKPrefix05Long,
+		sp.PKHybridWrongParity, sp.PKCompressed, sp.PKUncompressed, sp.PKNotOnCurve}
+	for fi, f := range flagSets {
+		for _, pk := range kinds {
+			for v := 0; v < 2; v++ {
+				checksigCase(r, "empty-sig-key", f, matchingType(f, fi), sigReq{Signer: 0, Empty: true}, pk, v == 1)
+			}
+		}
+	}
+}
+
+// the key count and the signature count of OP_CHECKMULTISIG are numbers of at most 4 bytes in both eras
+func familyCounts(r *common.Rand) {
+	fk := uint32(sp.FForkID | sp.FStrictEnc | sp.FNullFail)
+	one4, one5, one9 := []byte{1, 0, 0, 0}, []byte{1, 0, 0, 0, 0}, []byte{1, 0, 0, 0, 0, 0, 0, 0, 0}
+	vs := []struct {
+		name   string
+		nk, ns []byte
+	}{{"nk5", one5, nil}, {"ns5", nil, one5}, {"both5", one5, one5}, {"both9", one9, one9}, {"nk9", one9, nil}, {"ns9", nil, one9},
+		{"both4", one4, one4}, {"nk4", one4, nil}}
+	k := 0
+	for _, f := range []uint32{0, fk, fk | sp.FGenesis, sp.FGenesis, sp.FMinimalData, sp.FMinimalData | sp.FGenesis, mandatory | sp.FGenesis, mandatory, mandatory | sp.FGenesis | sp.FMinimalData} {
+		for _, x := range vs {
+			k++
+			exp := ""
+			if len(x.nk) > 4 || len(x.ns) > 4 || f&sp.FMinimalData != 0 {
+				exp = sp.ClsError // too long in either era; 01000000 is not the minimal encoding of 1
+			}
+			multisigCase(r, "counts/"+x.name, f, 1, []int{0}, msOpts{nkRaw: x.nk, nsRaw: x.ns, expect: exp, verify: k%4 == 0})
+		}
+	}
+}
+
+// LOW_S: a strict-DER signature whose R or S is not below the group order is not "high S"; it just fails
+func familyLowSRange(r *common.Rand) {
+	shapes := []int{sp.SigSNm1, sp.SigSN, sp.SigSNp1, sp.SigSNp5, sp.SigRNm1SNm1, sp.SigRNSNm1, sp.SigRNp1SNm1, sp.SigRNp5SNm1, sp.SigLongRShortS}
+	flagSets := []uint32{sp.FLowS, sp.FLowS | sp.FNullFail, sp.FLowS | sp.FDERSig, sp.FLowS | sp.FStrictEnc | sp.FNullFail,
+		sp.FForkID | sp.FLowS | sp.FGenesis, sp.FForkID | sp.FLowS | sp.FNullFail | sp.FGenesis, sp.FDERSig, sp.FLowS | sp.FGenesis}
+	for fi, f := range flagSets {
+		for si, sh := range shapes {
+			checksigCase(r, "lows-range", f, matchingType(f, fi+si), sigReq{Signer: 0, Shape: sh}, (fi+si)%2, (fi+si)%5 == 0)
+			if (fi+si)%2 == 0 {
+				multisigCase(r, "lows-range/multisig", f, 2, []int{1}, msOpts{shapes: []int{sh}})
+			}
+		}
+	}
+}
+
+// signature removal is exact (FindAndDelete of the signature's push) and OP_CODESEPARATOR removal belongs
+// to the original digest of the signature being hashed
+func familyExactRemoval(r *common.Rand) {
+	nopSep := []sp.Op{sp.O(0x61), sp.Sep(false)}
+	untakenSep := []sp.Op{sp.O(0x00), sp.O(0x63), sp.Sep(false), sp.O(0x68)}
+	empty := func(n int) int { return n + 2 }
+	// (a) a one-byte "signature" 05 pushed as 01 05: its push is 01 05 (removed), not OP_5 (kept).
+	//     <dummy> <05> <sigA> | <05> DROP 2 <k0> <k1> 2 CHECKMULTISIG: sigA covers the code without 01 05, then 05 is examined
+	for _, f := range []uint32{sp.FDERSig, sp.FStrictEnc, sp.FLowS, sp.FDERSig | sp.FGenesis, 0, sp.FDERSig | sp.FNullFail} {
+		for v, pre := range [][]sp.Op{{sp.PForm([]byte{5}, sp.FormDirect), sp.O(0x75)}, {sp.Num(5), sp.O(0x75)},
+			{sp.PForm([]byte{5}, sp.FormDirect), sp.O(0x75), sp.Num(5), sp.O(0x75), sp.PForm([]byte{5}, 1), sp.O(0x75)}} {
+			multisigCase(r, fmt.Sprintf("exact-removal/one-byte-signature-%d", v), f, 2, []int{empty(2), 1},
+				msOpts{bare: []bool{true, false}, hts: []byte{0x05, 0x01}, sigForm: sp.FormDirect, pre: pre})
+		}
+	}
+	// (b) an empty signature removes OP_0 opcodes and nothing else - not the separators, not the other
+	//     pushes: <dummy> <> <sigA> | OP_0 DROP 2 <k0> <k1> 2 CHECKMULTISIG [NOP CODESEPARATOR]; with a
+	//     malformed k0 the pair (empty, k0) is reached only if sigA verified
+	for _, f := range []uint32{sp.FForkID | sp.FGenesis, sp.FForkID, sp.FStrictEnc, 0, sp.FDERSig | sp.FGenesis, sp.FStrictEnc | sp.FGenesis | sp.FNullFail, sp.FForkID | sp.FNullFail} {
+		for v, post := range [][]sp.Op{nil, nopSep} {
+			for k, k0 := range []int{sp.PKHybrid, sp.PKOneZeroByte, sp.PKCompressed} {
+				pre := []sp.Op{sp.O(0x00), sp.O(0x75)}
+				if (v+k)%2 == 1 {
+					pre = append(untakenSep, pre...)
+				}
+				multisigCase(r, "exact-removal/empty-signature", f, 2, []int{empty(2), 1},
+					msOpts{pkKinds: []int{k0, sp.PKCompressed}, pre: pre, post: post})
+			}
+		}
+		// the report's shape: no OP_0 in the script code at all
+		multisigCase(r, "exact-removal/empty-signature", f, 2, []int{empty(2), 1}, msOpts{pkKinds: []int{sp.PKOneZeroByte, sp.PKCompressed}})
+	}
+	// (c) FORKID flag: a signature without the FORKID bit among the signatures must not take the
+	//     separators away from the digests of the others
+	for _, f := range []uint32{sp.FForkID | sp.FGenesis, sp.FForkID, sp.FForkID | sp.FNullFail | sp.FGenesis, mandatory, mandatory | sp.FGenesis} {
+		for v, post := range [][]sp.Op{nopSep, {sp.Sep(false)}, nil} {
+			var pre []sp.Op
+			if v == 2 {
+				pre = untakenSep
+			}
+			// 2-of-2: the FORKID signature is examined first and must verify, then the legacy one is an error
+			multisigCase(r, "exact-removal/mixed-families", f, 2, []int{0, 1}, msOpts{hts: []byte{0x01, 0x41}, pre: pre, post: post})
+			// 2-of-3: the FORKID signature fails on the last key, verifies on the middle one
+			multisigCase(r, "exact-removal/mixed-families", f, 3, []int{0, 1}, msOpts{hts: []byte{0x83, 0xc1}, pre: pre, post: post})
+			// neighbour: the legacy signature is examined first
+			multisigCase(r, "exact-removal/mixed-families", f, 2, []int{0, 1}, msOpts{hts: []byte{0x41, 0x01}, pre: pre, post: post})
+			// neighbour: all FORKID, with the separators
+			multisigCase(r, "exact-removal/mixed-families", f, 2, []int{0, 1}, msOpts{hts: []byte{0x41, 0xc2}, pre: pre, post: post})
+		}
+	}
+}
+
+// the unlocking script's OP_CODESEPARATOR position does not carry over into the locking script, also
+// when the unlocking script ends early with a top-level OP_RETURN (after genesis)
+func familyUnlockSeparator(r *common.Rand) {
+	for fi, f := range []uint32{sp.FGenesis, sp.FGenesis | sp.FForkID, sp.FGenesis | mandatory, sp.FGenesis | sp.FDERSig | sp.FNullFail} {
+		for extra := 0; extra < 3; extra++ {
+			for kind := 0; kind < 3; kind++ { // OP_CHECKSIG, OP_CHECKSIGVERIFY, 1-of-1 OP_CHECKMULTISIG
+				for wrong := 0; wrong < 3; wrong++ { // signed: the full locking script; the code from the stale offset on; the empty code
+					b := newBuild(r, fmt.Sprintf("unlock-separator/extra-%d", extra), f, 1)
+					pk := b.keys[0].Enc((fi + extra) % 2)
+					var unlock []sp.Op
+					if kind == 2 {
+						unlock = append(unlock, sp.P(nil))
+					}
+					slot := b.addSig(sigReq{Signer: 0, HT: matchingType(f, fi+extra+kind)})
+					unlock = append(unlock, sp.SigSlot(slot, nil, nil, 0))
+					for i := 0; i < extra; i++ {
+						unlock = append(unlock, sp.Num(1), sp.O(0x75))
+					}
+					unlock = append(unlock, sp.Sep(true), sp.O(0x6a))
+					stale := len(unlock) - 1 // the opcode index after the separator
+					var lock []sp.Op
+					for i := 0; i < stale-(wrong+extra)%2; i++ {
+						lock = append(lock, sp.O(0x61))
+					}
+					var at int
+					switch kind {
+					case 0:
+						lock = append(lock, sp.P(pk), sp.O(0xac))
+						at = len(lock) - 1
+					case 1:
+						lock = append(lock, sp.P(pk), sp.O(0xad), sp.O(0x51))
+						at = len(lock) - 2
+					default:
+						lock = append(lock, sp.Num(1), sp.P(pk), sp.Num(1), sp.O(0xae))
+						at = len(lock) - 1
+					}
+					lock = append(lock, sp.O(0x61))
+					switch wrong {
+					case 1:
+						b.reqs[slot].CodeFrom = stale
+					case 2:
+						b.reqs[slot].CodeFrom = len(lock)
+					}
+					b.scripts[0], b.scripts[1] = unlock, lock
+					b.ops = []sigOp{{script: 1, at: at, slots: []int{slot}, keys: [][]byte{pk}, verify: kind == 1, multi: kind == 2, dummy: []byte{}}}
+					b.note = fmt.Sprintf("stale offset %d, signed code variant %d", stale, wrong)
+					b.run()
+				}
+			}
+		}
+	}
+}
+
+// OP_CHECKMULTISIG: a signature that passes the encoding check but that go-bk cannot parse (R = 0) is
+// still paired with every remaining key, and each of those keys has its encoding checked
+func familyUnparsableSigKeys(r *common.Rand) {
+	k := 0
+	for _, f := range []uint32{sp.FStrictEnc, sp.FForkID, sp.FForkID | sp.FGenesis, sp.FStrictEnc | sp.FNullFail, sp.FStrictEnc | sp.FDERSig | sp.FGenesis, 0, sp.FDERSig, mandatory | sp.FGenesis} {
+		for n := 2; n <= 4; n++ {
+			for bad := -1; bad < n; bad++ {
+				k++
+				kinds := make([]int, n)
+				for j := range kinds {
+					kinds[j] = j % 2
+				}
+				if bad >= 0 {
+					kinds[bad] = []int{sp.PKPrefix05Long, sp.PKShort, sp.PKHybrid, sp.PKOneZeroByte}[k%4]
+				}
+				multisigCase(r, "unparsable-sig-keys/1-of-n", f, n, []int{0}, msOpts{shapes: []int{sp.SigZeroR}, pkKinds: kinds, verify: k%7 == 0})
+				if n == 3 && bad != 2 {
+					// 2-of-3: a good signature for the last key, then the unparsable one against the rest
+					multisigCase(r, "unparsable-sig-keys/2-of-3", f, n, []int{0, 2}, msOpts{shapes: []int{sp.SigZeroR, sp.SigGood}, pkKinds: kinds})
+				}
+			}
+		}
+	}
+}
+
+// known deviations that stay in the library: the harness states the node's rule, the driver lists the sites
+func familyKnownDeviations(r *common.Rand) {
+	// a 65-byte key with prefix 05: go-bk's ParsePubKey takes it for an uncompressed key, the node does not know the prefix
+	for fi, f := range []uint32{0, sp.FDERSig, sp.FNullFail | sp.FDERSig, sp.FLowS | sp.FGenesis, sp.FStrictEnc, sp.FForkID | sp.FGenesis} {
+		for v := 0; v < 2; v++ {
+			checksigCase(r, "deviation/key-prefix-05", f, matchingType(f, fi), sigReq{Signer: 0}, sp.PKPrefix05Long, v == 1)
+			multisigCase(r, "deviation/key-prefix-05", f, 2, []int{1}, msOpts{pkKinds: []int{sp.PKCompressed, sp.PKPrefix05Long}, verify: v == 1})
+		}
+		checksigCase(r, "deviation/key-prefix-05", f, matchingType(f, fi), sigReq{Signer: 0}, sp.PKHybridWrongParity, false)
+	}
+	// no DER flag at all: the node reads signatures with its lax DER parser, go-bk's ParseSignature wants exact lengths
+	for fi, f := range []uint32{0, sp.FNullFail, sp.FGenesis, sp.FStrictMultiSig | sp.FGenesis, sp.FDERSig, sp.FLowS, sp.FStrictEnc | sp.FGenesis} {
+		for si, sh := range []int{sp.SigSeqLenBig, sp.SigSeqLenSmall, sp.SigLongFormLen, sp.SigBadLen} {
+			checksigCase(r, "deviation/lax-der", f, legacyTypes[(fi+si)%6], sigReq{Signer: 0, Shape: sh}, (fi+si)%2, (fi+si)%3 == 0)
+			if (fi+si)%2 == 0 {
+				multisigCase(r, "deviation/lax-der", f, 2, []int{1}, msOpts{shapes: []int{sh}, hts: []byte{legacyTypes[si]}, verify: si == 2})
+			}
+		}
+	}
+	// after genesis, original digest, opcodes after a top-level OP_RETURN: the node goes on parsing them and
+	// drops each OP_CODESEPARATOR; the library keeps the tail as one blob
+	tag := "original-digest-of-opcodes-after-top-level-op-return"
+	tails := [][]sp.Op{{sp.Sep(false), sp.O(0x51)}, {sp.O(0x51), sp.Sep(false)}, {sp.O(0x51)}, {sp.Sep(false)}, {sp.P([]byte{0xab, 0xab}), sp.Sep(false), sp.O(0x52)}}
+	for fi, f := range []uint32{sp.FGenesis, sp.FGenesis | sp.FDERSig | sp.FNullFail, sp.FGenesis | sp.FForkID} {
+		for ti, tail := range tails {
+			for v := 0; v < 2; v++ {
+				b := newBuild(r, "deviation/after-op-return", f, 1)
+				slot := b.addSig(sigReq{Signer: 0, HT: matchingType(f, fi+ti)})
+				pk := b.keys[0].Enc((fi + ti) % 2)
+				b.scripts[0] = []sp.Op{sp.SigSlot(slot, nil, nil, 0)}
+				if v == 0 {
+					b.scripts[1] = append([]sp.Op{sp.P(pk), sp.O(0xac), sp.O(0x6a)}, tail...)
+				} else {
+					b.scripts[1] = append([]sp.Op{sp.P(pk), sp.O(0xad), sp.O(0x51), sp.O(0x6a)}, tail...)
+				}
+				b.ops = []sigOp{{script: 1, at: 1, slots: []int{slot}, keys: [][]byte{pk}, verify: v == 1}}
+				b.codeTag = tag
+				b.run()
+			}
+			multisigCase(r, "deviation/after-op-return", f, 2, []int{0, 1}, msOpts{post: append([]sp.Op{sp.O(0x6a)}, tail...), tag: tag, verify: ti%2 == 1})
+		}
+	}
+}
+
 func main() {
 	c = common.Parse("C06")
 	c.SetHeader(header)
@@ -1252,6 +1584,13 @@ func main() {
 	familyMultisigFlags(r.Fork())
 	familyStripping(r.Fork())
 	familyLimits(r.Fork())
-	c.Stats.Rule = "seeded secp256k1 keys; spending transactions of 1-3 inputs x 0-3 outputs with every input index; signatures by an independent spec signer (script code walked per the specification, digest, ECDSA with chosen nonce). Families: OP_CHECKSIG(VERIFY) under all 2^6 subsets of {STRICTENC, DERSIG, LOW_S, NULLDUMMY, NULLFAIL, FORKID} x both eras with conforming / high-S / hybrid-key / empty / wrong-key signatures always and rotating 15 DER shapes x 8 key encodings x 17 hash types (6 FORKID, 6 legacy, 5 undefined); OP_CODESEPARATOR at index 0, between pushes, after the operation, doubled, in taken / untaken IF and ELSE branches, in the unlocking script, each with a signature over the specified code and one over the code that ignores separators; m-of-n multisig, every arrangement of correct-for-key-j / wrong-key / wrong-digest / empty signatures exhaustively for n <= 3 (thorough: n <= 4) and sampled above (thorough: up to 20 and 21); 15 multisig scenarios (null dummy, null fail, malformed elements at examined and unexamined positions) under every flag subset; legacy signature removal with canonical / non-minimal / embedded copies; key-count and operation-count limits, P2SH, malformed counts. distinct = distinct (scripts, flags, transaction, index, value); non-trivial = at least one go-bk oracle query was needed"
+	familyEmptySigKey(r.Fork())
+	familyCounts(r.Fork())
+	familyLowSRange(r.Fork())
+	familyExactRemoval(r.Fork())
+	familyUnlockSeparator(r.Fork())
+	familyUnparsableSigKeys(r.Fork())
+	familyKnownDeviations(r.Fork())
+	c.Stats.Rule = "seeded secp256k1 keys; spending transactions of 1-3 inputs x 0-3 outputs with every input index; signatures by an independent spec signer (script code walked per the specification, digest, ECDSA with chosen nonce). Families: OP_CHECKSIG(VERIFY) under all 2^6 subsets of {STRICTENC, DERSIG, LOW_S, NULLDUMMY, NULLFAIL, FORKID} x both eras with conforming / high-S / hybrid-key / empty / wrong-key signatures always and rotating 15 DER shapes x 8 key encodings x 17 hash types (6 FORKID, 6 legacy, 5 undefined); OP_CODESEPARATOR at index 0, between pushes, after the operation, doubled, in taken / untaken IF and ELSE branches, in the unlocking script, each with a signature over the specified code and one over the code that ignores separators; m-of-n multisig, every arrangement of correct-for-key-j / wrong-key / wrong-digest / empty signatures exhaustively for n <= 3 (thorough: n <= 4) and sampled above (thorough: up to 20 and 21); 15 multisig scenarios (null dummy, null fail, malformed elements at examined and unexamined positions) under every flag subset; legacy signature removal (FindAndDelete of the exact push) with smallest-form / PUSHDATA1-2-4 / embedded / prefixed / suffixed copies inside and outside the script code, one-byte signatures pushed as 01 05 next to OP_5, empty signatures with OP_0 and separators in the script code, FORKID and original-digest signatures mixed in one multisig with separators after it; key-count and operation-count limits, P2SH, malformed counts, 4- / 5- / 9-byte counts in both eras with and without MINIMALDATA; R or S = n-1, n, n+1, n+5 and a 40-byte R under LOW_S with and without NULLFAIL; empty signature with 11 key encodings under 8 flag sets for OP_CHECKSIG(VERIFY); unlocking scripts ending <sig> ... OP_CODESEPARATOR OP_RETURN after genesis (no stale separator offset in the locking script); a signature the encoding check passes and go-bk cannot parse (R = 0) against malformed keys at every position; the three deviations kept as known findings (65-byte key with prefix 05, lax DER without DER flags, opcodes after a top-level OP_RETURN in the original digest), where the expected verdict is the node's (key validity by prefix and length, ecdsa_signature_parse_der_lax re-implemented in harness/sigspec). distinct = distinct (scripts, flags, transaction, index, value); non-trivial = at least one go-bk oracle query was needed"
 	c.Finish()
 }
